@@ -103,22 +103,28 @@ func garbageFrames(row *GRow, chanID, tokID, nextSeq uint32, rnd *rand.Rand) [][
 		body, _ := encodeBody(row.Side, 7, payload(7, 64, vfgo.Seed()))
 		var out [][]byte
 		k := 0
-		for _, v := range []uint32{0xfffffffe, 0x7fffffff, 0x80000000} {
-			// overwrite the 4 bytes in front of the payload (its length) -- found by searching the marker
-			i := strings.Index(string(body), string(payload(7, 64, vfgo.Seed())[:8]))
-			if i < 4 {
-				continue
-			}
-			bb := append([]byte(nil), body...)
-			binary.LittleEndian.PutUint32(bb[i-4:], v)
+		i := strings.Index(string(body), string(payload(7, 64, vfgo.Seed())[:8]))
+		if i < 5 {
+			return nil
+		}
+		add := func(bb []byte) {
 			out = append(out, rawFrame("MSG", 'F', cat(le32(chanID), le32(tokID), seqhdr(nextSeq+uint32(k)), bb)))
 			k++
-			// a variant array of byte strings with length -2
+		}
+		vals := []uint32{0x7fffffff, 0x80000000, 0xfffffffe}
+		for _, v := range vals {
+			// the length in front of the payload byte string
+			bb := append([]byte(nil), body...)
+			binary.LittleEndian.PutUint32(bb[i-4:], v)
+			add(bb)
+		}
+		for _, v := range vals {
+			// a variant array of byte strings with that length (-2 last: ua.Variant.Decode is known to
+			// panic on it, finding of C02)
 			bb2 := append([]byte(nil), body[:i-5]...)
-			bb2 = append(bb2, 0x8f)       // ByteString | array
-			bb2 = append(bb2, le32(v)...) // array length
-			out = append(out, rawFrame("MSG", 'F', cat(le32(chanID), le32(tokID), seqhdr(nextSeq+uint32(k)), bb2)))
-			k++
+			bb2 = append(bb2, 0x8f) // ByteString | array
+			bb2 = append(bb2, le32(v)...)
+			add(bb2)
 		}
 		return out
 	case "opn.junkuri":
@@ -275,9 +281,18 @@ func keysOf(m map[string]bool) []string {
 // A client channel reads only once its own OPN request is out: the garbage is the answer to it.
 func runGarbageClientPre(row *GRow, rnd *rand.Rand) runResult {
 	frames := garbageFrames(row, 7, 1, 101, rnd)
+	if len(frames) > 10 { // the short classes: every fourth length here (each frame costs one Open time-out)
+		var sub [][]byte
+		for i, f := range frames {
+			if i%4 == 0 || i == len(frames)-1 {
+				sub = append(sub, f)
+			}
+		}
+		frames = sub
+	}
 	var log []string
 	for i, f := range frames {
-		g, err := openRig(rigOpts{Policy: row.Policy, Mode: row.Mode, Side: "client", NoOpen: true, NoLoop: true, ReqTimeout: 1500 * time.Millisecond})
+		g, err := openRig(rigOpts{Policy: row.Policy, Mode: row.Mode, Side: "client", NoOpen: true, NoLoop: true, ReqTimeout: 600 * time.Millisecond})
 		if err != nil {
 			return runResult{status: "inconclusive", detail: "open: " + err.Error()}
 		}
@@ -298,10 +313,10 @@ func runGarbageClientPre(row *GRow, rnd *rand.Rand) runResult {
 		var oerr error
 		select {
 		case oerr = <-done:
-		case <-time.After(12 * time.Second):
+		case <-time.After(25 * time.Second):
 			g.close()
 			return runResult{status: "violation", key: fmt.Sprintf("c13:%s-client-pre-%s:hang", row.Class, row.Mode),
-				detail: fmt.Sprintf("Open did not return within 12 s (request timeout 1.5 s) after a %s frame #%d", row.Class, i)}
+				detail: fmt.Sprintf("Open did not return within 25 s (request timeout 0.6 s, context 8 s) after a %s frame #%d", row.Class, i)}
 		}
 		log = append(log, fmt.Sprintf("#%d len=%d: Open -> %v %v", i, len(f), oerr, evStrings(g.r.snapshot())))
 		g.close()
